@@ -383,6 +383,13 @@ def enc_input(v):
             val['linklocal_nexthop'] = '' if u['ll'] == 'empty' else None
         base[14] = val
         return base, []
+    if sub == 'evpnmac':
+        fmt = {'short': '%x', 'upper': '%02X', 'plain': '%02x'}[u['style']]
+        rt = [{'type': 2, 'value': {'rd': '172.16.0.1:5904', 'esi': esi_value([0] * 10), 'eth_tag_id': 108, 'mac': '-'.join(fmt % x for x in u['mac']), 'label': [16]}}]
+        if u['reach']:
+            base[14] = {'afi_safi': (25, 70), 'nexthop': '10.0.0.9', 'nlri': rt}
+            return base, []
+        return {15: {'afi_safi': (25, 70), 'withdraw': rt}}, []
     if sub == 'evpn5':
         val = {'rd': '172.16.0.1:5904', 'esi': 0, 'eth_tag_id': 100, 'prefix': '%s/%d' % (ip_any(bytes(u['pa'])), u['pl']), 'label': [u['label']]}
         if u['gw']:
